@@ -67,6 +67,8 @@ def run(ctx):
         _traces(ctx, "boundary", "trace-boundary", sizes=[999, 1000, 1001] + ([2001, 4095, 4096, 4097] if thorough else []))
         # the first large size is built by the big writer: values held by exactly 4096 / 8192 rows, trailing rows without columns
         _traces(ctx, "large", "trace-large", sizes=[12288, 65535, 65537, 150000] if thorough else [8192])
+        # the same expression objects executed again after their comparison leaves were edited, on two indexes
+        _traces(ctx, "reuse", "trace-edited-leaves", runs=12 if thorough else 6, must=("Exec", "ExecQ"))
         nul_probe(ctx)
     elif pid == "C02":
         ctx.cov["rule"] = ("TLC proves nested group-by refinement = declarative GROUP BY (sorted tuples with count>0) for every dataset x group-by list; "
@@ -78,6 +80,8 @@ def run(ctx):
         ctx.cov["exhaustive"] = True
         _traces(ctx, "small", "trace-small", runs=16 if thorough else 5)
         _traces(ctx, "boundary", "trace-boundary", sizes=[1001] + ([2001, 4097] if thorough else []))
+        # the same Query objects (with group-by lists) on two indexes whose columns hold different values
+        _traces(ctx, "reuse", "trace-two-indexes", runs=12 if thorough else 6, must=("ExecQ",))
     elif pid == "C05":
         ctx.cov["rule"] = ("MC_Lib explores the writer/file/handle life-cycle (ids sequential, file = FileOf(rows) for both writers, reopen stable); "
                            "datasets with a unique-per-row column are replayed with schema, ids and exact row membership per (column,value) compared, "
